@@ -324,6 +324,24 @@ def rule_stale_link(report, prog):
                  'the NFC-DEP activation can run while the link object of an earlier round is still stored')
 
 
+def rule_driver_tables(report, prog, rule='C18-R4'):
+    """sense() skips a target the device cannot do only if the driver says so with UnsupportedTargetError.  The RC-S380 chipset
+    wrappers index a bit rate table with their argument: every driver entry that passes target.brty on first restricts it to keys of
+    that table (the refusing `brty not in (...)` test that raises UnsupportedTargetError), else an unsupported bit rate in a target
+    list ends sense() / connect() with KeyError."""
+    from .. import lookups
+    mod = [f for q, f in prog.functions.items() if q.startswith('nfc.clf.rcs380.')]
+    tabs = lookups.param_tables(prog, [f for f in mod if '.Chipset.' in f.qname])
+    n = 0
+    accepted = {
+        ('nfc.clf.rcs380.Device.send_cmd_recv_rsp', 'self.chipset.in_set_rf(target.brty_send, target.brty_recv)'):
+            'the target is the object a sense_* method of this driver returned (bit rate restricted there) or was re-rated by NFC-DEP PSL to 212F / 424F',
+    }
+    for callee, pos, pname, keys in tabs:
+        n += lookups.check_table_callers(report, prog, rule, callee, pos, pname, keys, [f for f in mod if '.Device.' in f.qname], accepted)
+    report.floor(rule + ' table call sites', n, 6)
+
+
 def run(report, prog, tier):
     rule_typestate(report, prog)
     rule_returns(report, prog)
@@ -332,6 +350,7 @@ def run(report, prog, tier):
     rule_sense(report, prog)
     rule_stale(report, prog)
     rule_stale_link(report, prog)
+    rule_driver_tables(report, prog)
     # a tag that fails its activation commands is skipped, connect() keeps polling: the activation boundary of nfc.tag (shared with C16-R4)
     from .c16 import rule_activate
     rule_activate(report, prog, rule='C18-R2')
@@ -341,6 +360,7 @@ def run(report, prog, tier):
 
 C = 'nfc.clf'
 MUTANTS = [
+    ('rcs380-sense-tta-accepts-any-type-a-rate', 'nfc.clf.rcs380', '        if target.brty not in ("106A", "212A", "424A"):', '        if not target.brty.endswith("A"):', 'C18-R4'),
     ('llc-activate-keeps-old-link', 'nfc.llcp.llc', """        assert isinstance(mac, (nfc.dep.Initiator, nfc.dep.Target))
         self.mac = None
 """, """        assert isinstance(mac, (nfc.dep.Initiator, nfc.dep.Target))
